@@ -515,6 +515,10 @@ func (g *Gen) assembleStatic() string {
 			fmt.Fprintf(&b, "(assert (distinct %s))\n", strings.Join(names, " "))
 		}
 	}
+	for _, l := range g.preTheory {
+		b.WriteString(monoOptions(l))
+		b.WriteString("\n")
+	}
 	b.WriteString(monoOptions(th))
 	return b.String()
 }
